@@ -34,8 +34,10 @@ TVStart == /\ l <= Len(Rec) /\ Rec[l].ev = "start"
 \* Send(t): the request of t appears on the socket
 TVSent == /\ l <= Len(Rec) /\ Rec[l].ev = "sent"
           /\ LET t == Rec[l].t
-                 busy == {u \in Threads \ {t} : Awaits(u) /\ pc[u] \in {"sent", "recv"}} IN
-             /\ viol' = AddViol(viol, IF busy # {} THEN {"C10/" \o ep \o "/request-written-inside-another-transaction"} ELSE {}, cur)
+                 busy == {u \in Threads \ {t} : Awaits(u) /\ pc[u] \in {"sent", "recv", "dead"}}
+                 open == \E u \in busy : pc[u] = "dead" IN
+             /\ viol' = AddViol(viol, IF busy # {} THEN {"C10/" \o ep \o "/request-written-inside-another-transaction" \o
+                                                          (IF open THEN "/left-open-by-a-caller-that-died" ELSE "")} ELSE {}, cur)
              /\ pc' = [pc EXCEPT ![t] = "sent"]
              /\ eff' = [eff EXCEPT ![t] = IF Dyn /\ kinds[t] \in {"ack", "ff"}
                                           THEN (IF CfgPending THEN "unknown" ELSE IF flag THEN "yes" ELSE "no") ELSE eff[t]]
@@ -50,15 +52,22 @@ TVReceived == /\ l <= Len(Rec) /\ Rec[l].ev = "received"
               /\ pc' = [pc EXCEPT ![Rec[l].t] = "returning"]
               /\ l' = l + 1 /\ UNCHANGED <<kinds, ep, viol, judged, cur, free, flag, eff>>
 
+\* a caller died (panicked) at its hold point: whatever transaction it had open stays open
+TVCrashed == /\ l <= Len(Rec) /\ Rec[l].ev = "crashed"
+             /\ pc' = [pc EXCEPT ![Rec[l].t] = "dead"]
+             /\ l' = l + 1 /\ UNCHANGED <<kinds, ep, viol, judged, cur, free, flag, eff>>
+SomeoneDied == \E u \in Threads : pc[u] = "dead"
 TVDone == /\ l <= Len(Rec) /\ Rec[l].ev = "done"
           /\ LET t == Rec[l].t IN
-             /\ viol' = AddViol(viol, (IF ~Rec[l].ok THEN {"C10/" \o ep \o "/call-failed/" \o kinds[t]} ELSE {})
+             /\ viol' = IF pc[t] = "dead" THEN viol ELSE
+                        \* after a caller died inside the endpoint, the other clones may be refused (the lock is poisoned): not judged
+                        AddViol(viol, (IF ~Rec[l].ok /\ ~SomeoneDied THEN {"C10/" \o ep \o "/call-failed/" \o kinds[t]} ELSE {})
                                        \cup (IF Rec[l].ok /\ ~Rec[l].own THEN {"C10/" \o ep \o "/answer-of-another-request"} ELSE {})
                                        \* the request asked for an answer, the call returned without having read it: the answer is
                                        \* left on the shared socket for whoever reads next
                                        \cup (IF ~IsCfg(t) /\ Rec[l].ok /\ eff[t] = "yes" /\ pc[t] # "returning"
                                              THEN {"C10/" \o ep \o "/returned-without-consuming-its-answer/" \o kinds[t]} ELSE {}), cur)
-             /\ pc' = [pc EXCEPT ![t] = IF free THEN "waitlock" ELSE "done"]
+             /\ pc' = [pc EXCEPT ![t] = IF pc[t] = "dead" THEN "dead" ELSE IF free THEN "waitlock" ELSE "done"]
              /\ flag' = IF IsCfg(t) THEN kinds[t] = "cfg1" ELSE flag
           /\ judged' = judged + 1 /\ l' = l + 1 /\ UNCHANGED <<kinds, ep, cur, free, eff>>
 
@@ -74,7 +83,7 @@ TVEnd == /\ l <= Len(Rec) /\ Rec[l].ev = "end"
 TVCrashAny == /\ l <= Len(Rec) /\ Rec[l].ev \in {"crash", "begin"}
               /\ viol' = IF Rec[l].ev = "crash" THEN AddViol(viol, {"ANY/process-killed-by-signal-" \o Str(Rec[l].signal)}, Rec[l].id) ELSE viol
               /\ l' = l + 1 /\ UNCHANGED <<pc, kinds, ep, judged, cur, free, flag, eff>>
-TVNext == TVReset \/ TVStart \/ TVSent \/ TVBeforeRecv \/ TVReceived \/ TVDone \/ TVPeer \/ TVEnd \/ TVCrashAny
+TVNext == TVCrashed \/ TVReset \/ TVStart \/ TVSent \/ TVBeforeRecv \/ TVReceived \/ TVDone \/ TVPeer \/ TVEnd \/ TVCrashAny
 TVSpec == TVInit /\ [][TVNext]_tvars
 Post == PostOK
 Report == ReportAt(l, judged, viol)
